@@ -100,3 +100,29 @@ Proof.
   vm_compute. repeat split; try reflexivity; try discriminate.
   intros H. repeat (destruct H as [H|H]; [discriminate H|]). exact H.
 Qed.
+
+(* ================================================================ Wave 16: requests made from inside deck callbacks *)
+(* The manager clears its record BEFORE it calls the caller's callback: the state in which the callback runs is
+   [fst (dnote ...)].  Inside any deck callback the corresponding record is clear, so a nested request of the same kind
+   (the next block, a retry) is taken. *)
+Theorem deck_nested_request_taken : forall did d u a dat t asked b base addr len data tok,
+  a <> 0 ->
+  (d_r d = Some (t, asked, b) ->
+     dev_event did (fst (dnote true did d (OReadOk u did a dat))) (DRead base addr len tok) <> None /\
+     dev_event did (fst (dnote true did d (OReadFail u did a dat))) (DRead base addr len tok) <> None) /\
+  (d_w d = Some (t, asked, b) ->
+     dev_event did (fst (dnote true did d (OWriteOk u did a))) (DWrite base addr data tok) <> None /\
+     dev_event did (fst (dnote true did d (OWriteFail u did a))) (DWrite base addr data tok) <> None).
+Proof.
+  intros did d u a dat t asked b base addr len data tok N.
+  destruct (deck_record_cleared_by_every_notification did d u a dat t asked b N) as [HR HW].
+  split; intros H.
+  - destruct (HR H) as [E1 E2]. cbn [dev_event]. rewrite E1, E2. split; discriminate.
+  - destruct (HW H) as [E1 E2]. cbn [dev_event]. rewrite E1, E2. split; discriminate.
+Qed.
+
+(* the variant that calls the callback first and clears the record afterwards (in a `finally`): the callback runs in
+   the state d itself, where the record is still set: the nested request is refused ('Write operation ongoing') *)
+Theorem deck_clear_after_callback_refuted : forall did d t asked b base addr data tok,
+  d_w d = Some (t, asked, b) -> dev_event did d (DWrite base addr data tok) = None.
+Proof. intros did d t asked b base addr data tok H. cbn [dev_event]. rewrite H. reflexivity. Qed.
